@@ -226,4 +226,46 @@ example : (populateLater goJson noExpr noValidate docDb [(ofString "db.host", .s
   decide +kernel
 example : lowerKeys (.map [(ofString "Host", .str (ofString "third"))]) ≠ .null := by decide
 
+/-! ### counterexample: a Set below a section hides the section's other keys from a lookup of the section (KF-C17-9)
+
+    FULL STATEMENT (false of the code): after Set("a.q", v) a lookup of the ancestor `a` still leads to the documents'
+    value along every path `q'` that is neither `q` nor above nor below it —
+        ∀ b a q q' v, unrelated q q' → ∃ sub, (b.set (a.q) v).get a = .map sub ∧ searchMap sub q' = b.get (a.q')
+    so that binding the section by prefix and binding its keys through placeholders / the shorthand agree.  The binder
+    answers a path from what was handed to Set ALONE as soon as that layer has anything at the path (viper.find: the
+    override layer is consulted first and its nested map is returned as it is, not merged with the documents): the
+    ancestor answers with a map that holds the path that was set and nothing else, while the sibling itself, looked up
+    by its own path, still answers from the documents.  A struct bound by `prefix:"db"` after Set("db.host", …) has port 0,
+    a map bound the same way has no `port`, `${db.port}` gives 5432.  C17_set_seen_through_ancestor (what WAS set is
+    seen through the ancestor) is the part that holds.  Corpus case `HS z0 … o(sa.ka=…)` of the `value` sub-harness
+    (oracle setget-sibling-lost) replays it on the real code on every run. -/
+def tyDb : FieldTy := .struct [(ofString "host", .string), (ofString "port", .int)]
+def lateDbWhole : List HProp :=
+  [⟨tyDb, ⟨false, ofString "db", ofString "db", [], none⟩⟩, ⟨.map .any, ⟨false, ofString "db", ofString "db", [], none⟩⟩,
+   ⟨.int, ⟨true, ofString "${db.port}", ofString "${db.port}", [], none⟩⟩, ⟨.int, ⟨false, ofString "db.port", ofString "db.port", [], none⟩⟩]
+theorem C17_set_sibling_lost_counterexample :
+    -- the section, looked up after Set("db.host", replica): the port is gone …
+    (docDb.set (ofString "db.host") (.str (ofString "replica"))).get (ofString "db") = .map [(ofString "host", .str (ofString "replica"))] ∧
+    -- … the port itself, looked up by its own path: still the document's
+    (docDb.set (ofString "db.host") (.str (ofString "replica"))).get (ofString "db.port") = .int 5432 ∧
+    -- a holder populated afterwards: struct and map by prefix have lost the port, placeholder and prefix on the key have it
+    (populateLater goJson noExpr noValidate docDb [(ofString "db.host", .str (ofString "replica"))] lateDbWhole).2 = none ∧
+    (populateLater goJson noExpr noValidate docDb [(ofString "db.host", .str (ofString "replica"))] lateDbWhole).1.map (·.st.bound) =
+      [some (.struct [(ofString "host", .str (ofString "replica")), (ofString "port", .int 0)]),
+       some (.map [(ofString "host", .str (ofString "replica"))]), some (.int 5432), some (.int 5432)] ∧
+    -- before the Set the same holder has it everywhere
+    (populateLater goJson noExpr noValidate docDb [] lateDbWhole).1.map (·.st.bound) =
+      [some (.struct [(ofString "host", .str (ofString "primary")), (ofString "port", .int 5432)]),
+       some (.map [(ofString "host", .str (ofString "primary")), (ofString "port", .int 5432)]), some (.int 5432), some (.int 5432)] := by
+  decide +kernel
+
+/-! ### a component that edits the value it was given changes nothing for anybody else
+
+    A bound value is built by the decoder for the field (`FVal`); the binder is not a parameter of anything a component can
+    do to its field.  A holder populated after such an edit is populated under the binder as it is — with no Set in
+    between, as the documents say (kind HM of the `value` sub-harness observes exactly this on the real code). -/
+theorem C17_edit_is_no_set (J : Json) (evalE : Bytes → Except Err Val) (validate : FVal → List Bytes → Bool)
+    (b : Binder) (late : List HProp) :
+    populateLater J evalE validate b [] late = populateAll J evalE validate b.get stageOrder late := rfl
+
 end Ioc.C17
